@@ -28,10 +28,117 @@ type link struct {
 type Monitor func(prev *State, t Trans, next *State, evs []Event, path func() []Trans)
 
 // Explore runs a BFS over all delivery orders of the closed system (cfg, script).
-// reorderBound < 0: unbounded. Otherwise a delivery that is not the globally oldest pending
-// message of its receiver counts as one reordering and at most reorderBound are allowed on a
-// path (the bound is part of the state).
+// Delivery order is unbounded here; see ExploreBounded for the deviation-bounded variant.
 func Explore(cfg *Config, script Script, maxStates int, mon Monitor) (*Report, error) {
+	return ExploreBounded(cfg, script, maxStates, -1, mon)
+}
+
+// ExploreBounded is Explore with a bound on delivery-order deviations (reorderBound < 0: none).
+// The default schedule always takes the FIRST enabled transition in the canonical order of
+// Enabled() (receiver-major, then sender, private before broadcast); taking any other enabled
+// transition costs one deviation - the exact analogue of a preemption. All paths with at most
+// reorderBound deviations are explored (cost-layered search: a state is expanded with the
+// smallest number of deviations it can be reached with, so nothing within the bound is lost to
+// state matching).
+func ExploreBounded(cfg *Config, script Script, maxStates int, reorderBound int, mon Monitor) (*Report, error) {
+	if reorderBound < 0 {
+		return exploreAll(cfg, script, maxStates, mon)
+	}
+	rep := &Report{Cfg: cfg, Script: script}
+	init, evs, err := Init(cfg, script)
+	if err != nil {
+		return nil, err
+	}
+	rep.InitEvents = evs
+	if mon != nil {
+		mon(nil, Trans{}, init, evs, func() []Trans { return nil })
+	}
+	type vis struct {
+		id   int32
+		cost int
+	}
+	visited := map[[32]byte]*vis{}
+	var links []link
+	pathOf := func(id int32) []Trans {
+		var p []Trans
+		for id > 0 {
+			p = append(p, links[id].t)
+			id = links[id].parent
+		}
+		for i, j := 0, len(p)-1; i < j; i, j = i+1, j-1 {
+			p[i], p[j] = p[j], p[i]
+		}
+		return p
+	}
+	type item struct {
+		s     *State
+		v     *vis
+		cost  int
+		depth int
+	}
+	v0 := &vis{0, 0}
+	visited[init.Hash()] = v0
+	links = append(links, link{-1, Trans{}})
+	layers := make([][]item, reorderBound+1)
+	layers[0] = []item{{init, v0, 0, 0}}
+	rep.States = 1
+	for c := 0; c <= reorderBound; c++ {
+		for len(layers[c]) > 0 {
+			it := layers[c][0]
+			layers[c] = layers[c][1:]
+			if it.v.cost < it.cost {
+				continue // reached more cheaply meanwhile and expanded there
+			}
+			if it.depth > rep.MaxDepth {
+				rep.MaxDepth = it.depth
+			}
+			en := it.s.Enabled()
+			if len(en) == 0 {
+				rep.Terminals = append(rep.Terminals, &Terminal{it.s, pathOf(it.v.id)})
+				continue
+			}
+			for k, t := range en {
+				nc := c
+				if k > 0 {
+					nc++
+				}
+				if nc > reorderBound {
+					break
+				}
+				nx, evs := it.s.Apply(t)
+				rep.Transitions++
+				if mon != nil {
+					id := it.v.id
+					tt := t
+					mon(it.s, t, nx, evs, func() []Trans { return append(pathOf(id), tt) })
+				}
+				h := nx.Hash()
+				if v, ok := visited[h]; ok {
+					if v.cost <= nc {
+						continue
+					}
+					// reached with fewer deviations than before: re-link and expand again at this cost
+					v.cost = nc
+					links[v.id] = link{it.v.id, t}
+					layers[nc] = append(layers[nc], item{nx, v, nc, it.depth + 1})
+					continue
+				}
+				if maxStates > 0 && rep.States >= maxStates {
+					rep.Capped = true
+					continue
+				}
+				nv := &vis{int32(len(links)), nc}
+				links = append(links, link{it.v.id, t})
+				visited[h] = nv
+				rep.States++
+				layers[nc] = append(layers[nc], item{nx, nv, nc, it.depth + 1})
+			}
+		}
+	}
+	return rep, nil
+}
+
+func exploreAll(cfg *Config, script Script, maxStates int, mon Monitor) (*Report, error) {
 	rep := &Report{Cfg: cfg, Script: script}
 	init, evs, err := Init(cfg, script)
 	if err != nil {
